@@ -452,7 +452,7 @@ func (its *MongoCollections) DeleteOperation(ctx iface.OrdaContext, duid string,
 	}
 	defer done()
 	for i, o := range its.Operations {
-		if o.DUID == duid && o.Sseq == uint64(sseq) {
+		if o.DUID == duid && uint64(o.Sseq) == uint64(sseq) {
 			its.Operations = append(its.Operations[:i:i], its.Operations[i+1:]...)
 			return 1, nil
 		}
@@ -469,10 +469,10 @@ func (its *MongoCollections) GetOperations(ctx iface.OrdaContext, duid string, f
 	defer done()
 	var sel []*schema.OperationDoc
 	for _, o := range its.Operations {
-		if o.DUID != duid || o.Sseq < from {
+		if o.DUID != duid || uint64(o.Sseq) < from {
 			continue
 		}
-		if to != constants.InfinitySseq && o.Sseq > to {
+		if to != constants.InfinitySseq && uint64(o.Sseq) > to {
 			continue
 		}
 		// insertion sort by sseq
@@ -488,7 +488,7 @@ func (its *MongoCollections) GetOperations(ctx iface.OrdaContext, duid string, f
 	var sseqList []uint64
 	for _, o := range sel {
 		opList = append(opList, copyOperation(o).GetOperation())
-		sseqList = append(sseqList, o.Sseq)
+		sseqList = append(sseqList, uint64(o.Sseq))
 	}
 	return opList, sseqList, nil
 }
